@@ -19,6 +19,7 @@ About `MhlModel.flattenRecords` for arbitrary `gens : List LGen` (nothing assume
   paths of the shorter history are a prefix of the paths of the longer one.
 -/
 import MhlProps.Proofs.FlattenLemmas
+import MhlProps.C18
 
 namespace MhlProps.C18order
 open MhlModel
@@ -64,6 +65,11 @@ theorem foldl_ins_paths (L : List Item) (acc : List Record) :
 theorem flatten_order (gens : List LGen) :
     (flattenRecords gens).map (·.path) = firstAppearance ((items gens).map (·.path)) := by
   rw [flattenRecords_eq_items, foldl_ins_paths]; rfl
+
+/-- the same for the records as `flatten` writes them (entries of each record sorted by format name) -/
+theorem written_order (gens : List LGen) :
+    (MhlProps.C18.sortedRecords gens).map (·.path) = firstAppearance ((items gens).map (·.path)) := by
+  rw [MhlProps.C18.sortedRecords_paths, flatten_order]
 
 theorem flatten_order_congr (g₁ g₂ : List LGen) (h : (items g₁).map (·.path) = (items g₂).map (·.path)) :
     (flattenRecords g₁).map (·.path) = (flattenRecords g₂).map (·.path) := by
